@@ -225,6 +225,30 @@ fn check_frame(leg: &mut Leg, r: &mut Rng, plen: usize) {
         smac[i] = r.u8();
         dmac[i] = if r.chance(1, 4) { 0xff } else { r.u8() };
     }
+    // one frame in 65 536 has a UDP checksum that computes to zero (sent as 0xffff, RFC 768): make that one frame in eight by
+    // choosing the last two payload octets accordingly
+    let mut payload = payload;
+    let mut forced_zero = false;
+    if plen >= 2 && plen % 2 == 0 && r.chance(1, 8) {
+        let n = payload.len();
+        payload[n - 2] = 0;
+        payload[n - 1] = 0;
+        let udp_len = (8 + n) as u32;
+        let mut sum: u32 = 0;
+        for w in [u32::from(src) >> 16, u32::from(src) & 0xffff, u32::from(dst) >> 16, u32::from(dst) & 0xffff, 17, udp_len, sport as u32, dport as u32, udp_len] {
+            sum += w;
+        }
+        for c in payload.chunks(2) {
+            sum += ((c[0] as u32) << 8) | c[1] as u32;
+        }
+        while sum > 0xffff {
+            sum = (sum & 0xffff) + (sum >> 16);
+        }
+        let w = 0xffff - sum;
+        payload[n - 2] = (w >> 8) as u8;
+        payload[n - 1] = w as u8;
+        forced_zero = true;
+    }
     let replay = json!({"engine": "c12", "kind": "frame", "payload_len": plen, "src": src.to_string(), "dst": dst.to_string(),
         "sport": sport, "dport": dport, "payload_hex": hex(&payload), "smac": hex(&smac), "dmac": hex(&dmac)});
     let res = guard::timed(&payload, || {
@@ -250,6 +274,9 @@ fn check_frame(leg: &mut Leg, r: &mut Rng, plen: usize) {
                 }
                 if u.udp_sum_absent {
                     leg.count("udp_checksum_zero_field", 1);
+                }
+                if forced_zero {
+                    leg.count("frames_whose_udp_checksum_computes_to_zero", 1);
                 }
             }
         },
